@@ -16,6 +16,7 @@
 #include <pistache/peer.h>
 #include <pistache/transport.h>
 
+#include <algorithm>
 #include <cstring>
 #include <ctime>
 #include <iomanip>
@@ -476,20 +477,25 @@ namespace Pistache::Http
             message->body_.reserve(size);
             StreamCursor::Token chunkData(cursor);
             const ssize_t available = cursor.remaining();
+            // data bytes of this chunk that have not been copied yet
+            const ssize_t remainingData = size - alreadyAppendedChunkBytes;
 
-            if (available + alreadyAppendedChunkBytes < size + 2)
+            if (available - 2 < remainingData)
             {
-                cursor.advance(available);
-                message->body_.append(chunkData.rawText(), available);
-                alreadyAppendedChunkBytes += available;
+                // The chunk (data + CRLF) is not complete: consume the data
+                // bytes that are there, but never a part of the trailing CRLF
+                const ssize_t count = std::min(available, remainingData);
+                cursor.advance(count);
+                message->body_.append(chunkData.rawText(), count);
+                alreadyAppendedChunkBytes += count;
                 return Incomplete;
             }
-            cursor.advance(size - alreadyAppendedChunkBytes);
+            cursor.advance(remainingData);
 
             // trailing EOL
             cursor.advance(2);
 
-            message->body_.append(chunkData.rawText(), size - alreadyAppendedChunkBytes);
+            message->body_.append(chunkData.rawText(), remainingData);
 
             return Complete;
         }
